@@ -17,7 +17,7 @@ import (
 
 // C07 — a diff reports only real differences: no no-op, no redundant hunk.
 
-var c07OptSets = []string{"list", "list", "set", "mset", "setkeys:id", "merge", "set+merge", "mset+merge"}
+var c07OptSets = []string{"list", "list", "set", "mset", "setkeys:id", "merge", "set+merge", "mset+merge", "set+mset", "mset+set"}
 
 // locate walks a hunk path prefix (everything but a trailing index / {} /
 // []) in doc. present=false means a key on the way is absent.
